@@ -421,6 +421,30 @@ mut('c10-double-invoke', ['C10'], OB,
 mut('c03-serial-per-instance', ['C03'], MS,
     [("            DBusMessage._nextSerial += 1\n", "            self._nextSerial += 1\n")], ['C03.D5'])
 
+# ---- C17 ------------------------------------------------------------------
+twin('c17-prefix-getall-break', ['C17'], 'd3c47f8', ['C17.D4'], 'pre-fix twin')
+mut('c17-getall-only-read', ['C17'], OB,
+    [("            if p.iprop.access != 'write' and p.pname not in r:", "            if p.iprop.access == 'read' and p.pname not in r:")], ['C17.D1'])
+mut('c17-get-writeonly-readable', ['C17'], OB,
+    [("        if p.iprop.access == 'write':\n            raise Exception('Property is not readable')\n", "")], ['C17.D1'])
+mut('c17-set-readonly-writable', ['C17'], OB,
+    [("        if p.iprop.access not in ('write', 'readwrite'):", "        if p.iprop.access not in ('write', 'readwrite', 'read'):")], ['C17.D1'])
+mut('c17-emit-on-invalidates', ['C17'], OB,
+    [("        if self.iprop.emits == 'true':", "        if self.iprop.emits != 'false':")], ['C17.D2'])
+mut('c17-emit-before-store', ['C17'], OB,
+    [("        instance._dbusProperties[self.key] = value\n\n        if self.iprop.emits == 'true':\n            instance.emitSignal(\n                'PropertiesChanged',\n                self.interface,\n                {self.pname: value},\n                [],\n            )",
+      "        if self.iprop.emits == 'true':\n            instance.emitSignal(\n                'PropertiesChanged',\n                self.interface,\n                {self.pname: value},\n                [],\n            )\n\n        instance._dbusProperties[self.key] = value")], ['C17.D2'])
+mut('c17-key-only-name', ['C17'], OB,
+    [("        if self.key is None:\n            self.key = self.interface + self.pname\n\n        instance._dbusProperties[self.key] = value",
+      "        instance._dbusProperties[self.pname] = value")], ['C17.D5'],
+    note='same property name on two interfaces then shares one slot; get/set disagree')
+mut('c17-get-untyped', ['C17'], OB,
+    [("        if p.iprop.sig in marshal.variantClassMap:\n            return marshal.variantClassMap[p.iprop.sig](v)\n        else:\n            return v", "        return v")], ['C17.D3'])
+mut('c17-property-access-swapped', ['C17', 'C15'], 'txdbus/interface.py',
+    [("        if writeable and not readable:\n            self.access = 'write'", "        if writeable and not readable:\n            self.access = 'readwrite'")], ['C17.D1', 'C15'])
+mut('c17-set-wrong-attr', ['C17'], OB,
+    [("        return setattr(self, p.attr_name, value)", "        return setattr(self, p.pname, value)")], ['C17.D5'])
+
 # benign variants --------------------------------------------------------------
 mut('ok-int16-condexpr', ['C01', 'C02'], M,
     [("return 2, [struct.pack(lendian and '<h' or '>h', var)]",
